@@ -275,9 +275,12 @@ class Prog:
         return None
 
     def const_named(self, name):
-        """value of an enum constant / object-like macro as the compiler folded it somewhere in the library"""
+        """value of an enum constant / object-like macro as the compiler folded it in the library.  The extractor labels every folded
+        constant expression that BEGINS with a macro with that macro's name (`MACRO + 1` carries the name and the value of the sum), so the
+        macro's own value is the most frequent one among the nodes that carry its name (ties: the value seen in the most functions,
+        then the smaller)."""
         if not hasattr(self, '_consts'):
-            c = {}
+            cnt = collections.defaultdict(collections.Counter)
             for f in self.funcs.values():
                 for b in f['blocks']:
                     items = [ev['e'] for ev in b['elems']]
@@ -285,17 +288,22 @@ class Prog:
                         items.append(b['term']['cond'])
                     lab = b.get('label')
                     if lab and lab.get('k') == 'case' and (lab.get('en') or lab.get('mn')):
-                        c.setdefault(lab.get('en') or lab.get('mn'), lab['lo'])
+                        cnt[lab.get('en') or lab.get('mn')][lab['lo']] += 1
                     for it in items:
                         for y in walk(it):
                             if isinstance(y, dict) and y.get('k') == 'int':
                                 for kk in ('en', 'mn'):
-                                    if y.get(kk):
-                                        c.setdefault(y[kk], const_int(y))
-            self._consts = c
+                                    if y.get(kk) and const_int(y) is not None:
+                                        cnt[y[kk]][const_int(y)] += 1
+            self._consts = dict((k, sorted(c.items(), key=lambda kv: (-kv[1], kv[0]))[0][0]) for k, c in cnt.items())
         if name not in self._consts:
             raise AnalysisBroken('constant %s is not used anywhere in the library' % name)
         return self._consts[name]
+
+    def is_macro(self, node, name):
+        """the node is the macro itself (not a folded expression that merely starts with it)"""
+        node = strip(node)
+        return isinstance(node, dict) and node.get('k') == 'int' and (node.get('mn') == name or node.get('en') == name) and const_int(node) == self.const_named(name)
 
     # -------------------------------------------------------------- indirect calls
     def fp_stores(self):
